@@ -101,6 +101,9 @@ def run(tier, seed, t0):
     for i in range(64 if thorough else 16):
         jobs.append(Job("tail-%d" % i, "drv_c07", "optim", "spqlios-fma", ["--mode", "tail", "--alpha", 2.0 ** -25 if i % 2 == 0 else 2.0 ** -15,
                                                                        "--count", 6e8 if thorough else 1.5e8, "--seed", seed, "--shard", i], timeout=7200))
+    for i in range(4 if thorough else 2):
+        jobs.append(Job("keybits-%d" % i, "drv_c07", "optim" if i % 2 == 0 else "debug", "spqlios-fma" if i % 2 == 0 else "nayuki-portable",
+                        ["--mode", "keybits", "--keys", 6000 if thorough else 2000, "--seed", seed, "--shard", i], timeout=3600))
     jobs.append(Job("seeding", "drv_c07", "optim", "spqlios-fma", ["--mode", "seeding", "--seed", seed], timeout=1800))
     jobs.append(Job("seeding-fftw", "drv_c07", "optim", "fftw", ["--mode", "seeding", "--seed", seed + 1], timeout=1800))
 
@@ -137,6 +140,22 @@ def run(tier, seed, t0):
                     table["mask|" + st["cell"] + "|" + r.job.name] = {k: (round(v, 6) if isinstance(v, float) else v) for k, v in st.items() if k not in ("kind", "cell", "_job")}
                     if bad:
                         viols.append(("noise:mask-not-uniform:" + st["cell"].split(":seed")[0], {"cell": st["cell"], "problems": bad, "stats": st}, r))
+                elif st.get("kind") == "keybits":
+                    # number of statistics looked at: len positions, ~2000 residue classes, 64 lags: 8 sigma + a union allowance
+                    import math as _m
+                    lim = lambda count: 8.0 + _m.sqrt(2 * _m.log(max(count, 2)))
+                    probs = []
+                    if abs(st["z_total_balance"]) > 8:
+                        probs.append(("total-balance", st["z_total_balance"]))
+                    if abs(st["z_worst_position"]) > lim(st["length"]):
+                        probs.append(("position-%d" % st["worst_position"], st["z_worst_position"]))
+                    if abs(st["z_worst_residue_class"]) > lim(2100):
+                        probs.append(("positions-%d-mod-%d" % (st["class_residue"], st["class_modulus"]), st["z_worst_residue_class"]))
+                    if abs(st["z_worst_lag"]) > lim(64):
+                        probs.append(("lag-%d" % st["worst_lag"], st["z_worst_lag"]))
+                    table["keybits|" + st["key"] + "|" + r.job.name] = {k: (round(v, 3) if isinstance(v, float) else v) for k, v in st.items() if k not in ("kind", "_job")}
+                    for what, z in probs:
+                        viols.append(("noise:key-bits-not-balanced:%s" % st["key"], {"statistic": what, "z": z, "stats": st}, r))
                 elif st.get("kind") == "keybalance":
                     for nm in ("lwe", "ring"):
                         ones, tot = st[nm + "_ones"], st[nm + "_n"]
